@@ -123,9 +123,10 @@ class FakeInst:
 def fix_violation(v, params, E):
     """turn a scanner counterexample into a public-API input for the native gate: embed the bytes where this class is scanned"""
     raw = bytes.fromhex(v['buf']); cls = params['cls']
-    if cls == 'uri': v['kind'] = 'req'; v['api'] = 'parse'; v['buf'] = (b'X ' + raw + b' HTTP/1.1\r\n\r\n').hex()
-    elif cls == 'value': v['kind'] = 'headers'; v['api'] = 'cfg'; v['buf'] = (b'N:x' + raw + b'x\r\n\r\n').hex()
-    else: v['kind'] = 'headers'; v['api'] = 'cfg'; v['buf'] = (b'x' + raw + b':v\r\n\r\n').hex()
+    # two embeddings: inside a complete message, and with the buffer ENDING right after the scanned bytes (tail-dependent scanners)
+    if cls == 'uri': v['kind'] = 'req'; v['api'] = 'parse'; v['buf'] = (b'X ' + raw + b' HTTP/1.1\r\n\r\n').hex(); v['alt_bufs'] = [(b'X ' + raw).hex()]
+    elif cls == 'value': v['kind'] = 'headers'; v['api'] = 'cfg'; v['buf'] = (b'N:x' + raw + b'x\r\n\r\n').hex(); v['alt_bufs'] = [(b'N:x' + raw).hex(), (b'N:' + raw + b'\r\n\r\n').hex()]
+    else: v['kind'] = 'headers'; v['api'] = 'cfg'; v['buf'] = (b'x' + raw + b':v\r\n\r\n').hex(); v['alt_bufs'] = [(b'x' + raw).hex(), (raw + b':v\r\n\r\n').hex()]
     v['cap'] = 1; v['flags'] = 0; v['predicted'] = None; v['raw_scanner_input'] = raw.hex()
     if ('does not return normally' in v['msg'] and any(k in v['msg'] for k in ('oob:', 'uninit:', 'ptrcmp:', 'align:'))) or 'cursor left the buffer' in v['msg']:
         # memory-safety failure inside a scanner: the embedding changes what lies after the bytes, so a native run cannot confirm it
